@@ -304,7 +304,8 @@ def gen_refine_case(rng: random.Random, k: int):
     return {"call": "refine_droplets", "field": spec, "kwargs": kwargs, "drop": drop,
             "candidate_kind": rng.choice(["located", "located", "perturbed", "diffuse", "diffuse_unset", "perturbed2d",
                                           "unpickled", "refined"]),
-            "container": rng.choice(["list", "emulsion"]), "num_processes": np_, "delays": pattern}
+            "container": CONTAINERS[(k * 3 + k // len(CONFIGS_REFINE)) % len(CONTAINERS)], "num_processes": np_,
+            "delays": pattern}
 
 
 def candidates_of(case, field):
@@ -342,20 +343,69 @@ def candidates_of(case, field):
     return cands
 
 
+CONTAINERS = ["list", "tuple", "emulsion", "ndarray", "generator", "iter", "filter", "map", "dict_values", "oneshot"]
+ONE_SHOT = ["generator", "iter", "filter", "map", "oneshot"]
+
+
+class OneShot:
+    """An iterable that can be traversed only once (a stream): a second `iter()` is an error of the consumer."""
+
+    def __init__(self, items):
+        self._items, self._used = list(items), False
+
+    def __iter__(self):
+        if self._used:
+            raise RuntimeError("one-shot iterable traversed a second time")
+        self._used = True
+        return iter(self._items)
+
+
+def _identity(d):
+    return d
+
+
+def _always(d):
+    return True
+
+
 def container_of(case, cands):
-    """What the caller hands to refine_droplets: a plain list or the caller's Emulsion (holding these objects)."""
-    if case.get("container") == "emulsion" and cands:
+    """What the caller hands to refine_droplets (annotated Iterable[DiffuseDroplet]): the SAME droplet objects in a
+    list, tuple, the caller's Emulsion, a numpy object array, or a one-shot iterable (generator, iter(list),
+    filter / map object, a stream class), or a dict view."""
+    kind = case.get("container", "list")
+    if kind == "list":
+        return cands
+    if kind == "tuple":
+        return tuple(cands)
+    if kind == "emulsion":
         from droplets import Emulsion
-        return Emulsion(cands, copy=False)
-    return cands
+        return Emulsion(cands, copy=False) if cands else cands
+    if kind == "ndarray":
+        arr = np.empty(len(cands), dtype=object)
+        for i, c in enumerate(cands):
+            arr[i] = c
+        return arr
+    if kind == "generator":
+        return (c for c in cands)
+    if kind == "iter":
+        return iter(cands)
+    if kind == "filter":
+        return filter(_always, cands)
+    if kind == "map":
+        return map(_identity, cands)
+    if kind == "dict_values":
+        return {i: c for i, c in enumerate(cands)}.values()
+    if kind == "oneshot":
+        return OneShot(cands)
+    raise ValueError(kind)
 
 
 def refine_call(ia, field, case, np_, kw):
     """One call of refine_droplets on freshly built candidates: (canonical results, caller-visible state of the
     candidates afterwards: changed? per candidate, result-aliases-a-candidate? per result)."""
-    cands = container_of(case, candidates_of(case, field))
+    cands = candidates_of(case, field)  # the caller keeps these objects; the container holds the same objects
     before = canon_droplets(cands)
-    res = ia.refine_droplets(field, cands, num_processes=np_, **kw)
+    res = ia.refine_droplets(field, container_of(case, cands), num_processes=np_, **kw)
     after = canon_droplets(cands)
     state = {"changed": [a != b for a, b in zip(before, after)], "after": after, "before": before,
              "aliased": [any(r is c for c in cands) for r in res if r is not None],
@@ -678,7 +728,7 @@ EDGE_SINGLE_P = {"shape": [16, 16], "periodic": True, "noise": 0.0, "seed": 3, "
 EDGE_SINGLE = {"shape": [16, 16], "periodic": False, "noise": 0.0, "seed": 3, "droplets": [[[8.0, 8.0], 2.0, 0.75]]}
 
 
-def edge_cases():
+def edge_cases(thorough=False):
     cases = []
     for np_ in (2, 3, "auto"):
         for take, kind, cont in ((0, "located", "list"), (1, "diffuse", "emulsion"), (2, "perturbed2d", "list")):
@@ -695,6 +745,18 @@ def edge_cases():
                           "frames": [EDGE_FULL] * nframes, "times": [0.5] * nframes,
                           "options": {"refine": True, "minimal_radius": 0.5}, "progress": [None, True][nframes],
                           "num_processes": np_, "delays": "none"})
+    # the kind of container of the candidates x process count (one-shot iterables with every count; the others
+    # with one count each in the quick tier, all in the thorough tier), and empty / single-item one-shot containers
+    for i, cont in enumerate(CONTAINERS):
+        counts = (2, 3, "auto") if (cont in ONE_SHOT or thorough) else ((2, 3, "auto")[i % 3],)
+        for np_ in counts:
+            cases.append({"call": "edge", "entry": "refine_droplets", "what": f"3 candidates in a {cont}", "field": EDGE_FULL,
+                          "take": 3, "candidate_kind": ["located", "diffuse", "perturbed2d"][i % 3], "container": cont,
+                          "kwargs": {}, "num_processes": np_, "delays": "none"})
+    for cont, take, np_ in (("generator", 0, "auto"), ("iter", 0, 2), ("oneshot", 1, 3), ("map", 1, "auto"), ("filter", 2, 2)):
+        cases.append({"call": "edge", "entry": "refine_droplets", "what": f"{take} candidates in a {cont}", "field": EDGE_FULL,
+                      "take": take, "candidate_kind": "located", "container": cont, "kwargs": {}, "num_processes": np_,
+                      "delays": "none"})
     # num_processes as a numpy integer (valid: an integer), as the float 1.0 / 2.0, as None, 0 and negative
     # (documented: "int or 'auto'"): see judge_edge_case for what is demanded of each
     for v in ({"__np__": "int64", "v": 2}, {"__np__": "int64", "v": 1}, 2.0, 1.0, None, 0, -1):
@@ -916,7 +978,7 @@ def check(ctx: vlib.Ctx) -> int:
 
 def _check(ctx: vlib.Ctx) -> int:
     rng = random.Random(ctx.seed)
-    ok, fresh = vlib.prove_with_fallback(ctx, ["Proofs/C15.vo"], gens=["Gen_glue"])
+    ok, fresh = vlib.prove_with_fallback(ctx, ["Proofs/C15.vo", "Proofs/ParallelOneShot.vo"], gens=["Gen_glue"])
     ctx.tie.append("correspondence: gathered lists, (time, emulsion) pairs and the caller's option dicts after the call, "
                    "under forced completion orders, compared inside Coq with Model/Parallel.v over the "
                    + ("regenerated" if fresh else "GOLDEN") + " facts of Gen_glue (gather kind, max_workers rule, serial "
@@ -971,10 +1033,13 @@ def _check(ctx: vlib.Ctx) -> int:
             obs = run_locate_case(case, log)
             record("locate_droplets", case, obs, judge_locate_case(case, obs))
     # ---- 0, 1, 2 tasks for every process count, all entry points
-    for case in edge_cases():
+    for case in edge_cases(thorough=not ctx.quick):
         obs = run_edge_case(case)
         record("edge:" + case["entry"], case, obs, judge_edge_case(case, obs))
         ctx.count("edge_tasks x num_processes", f"{case['what']} x {json.dumps(case['num_processes'])}")
+        if case["entry"] == "refine_droplets":
+            ctx.count("candidate_container x num_processes (edge stream)",
+                      f"{case.get('container', 'list')} x {json.dumps(case['num_processes'])}")
         ctx.count("edge_outcome", f"num_processes={json.dumps(case['num_processes'])}: " +
                   (obs["parallel"][1] if obs["parallel"][0] == "err" else "returns"))
     # ---- refine_droplets
